@@ -182,7 +182,7 @@ func (e expect) check(got string) string {
 // sentExpect is one message the operation must hand to Netlink.Send.
 type sentExpect struct {
 	typ, flags uint16
-	data       []byte     // exact payload (nil = empty) unless words is set
+	data       []byte      // exact payload (nil = empty) unless words is set
 	words      *[11]uint32 // audit_status payload
 }
 
